@@ -219,14 +219,14 @@ func c13Scenarios(tier string) []*core.Scenario {
 	return scs
 }
 
-var c13Templates = []string{"MOV AX,{}", "MOV {},AX", "MOV EAX,{}", "JMP {}", "JE {}", "CALL {}", "DB {}", "DW {}", "DD {}", "RESB {}", "INT {}", "PUSH {}", "POP {}", "IN AL,{}", "OUT {},AL",
+var c13Templates = []string{"A EQU {}\n\tMOV AX,A", "A EQU B\nB EQU {}\n\tDB A", "A EQU {}+1\n\tDW A", "MOV AX,{}", "MOV {},AX", "MOV EAX,{}", "JMP {}", "JE {}", "CALL {}", "DB {}", "DW {}", "DD {}", "RESB {}", "INT {}", "PUSH {}", "POP {}", "IN AL,{}", "OUT {},AL",
 	"ADD CX,{}", "CMP {},1", "LGDT {}", "{} EQU 1", "X EQU {}", "ORG {}", "ALIGNB {}", "SHL AX,{}", "IMUL CX,{}", "GLOBAL {}", "EXTERN {}", "[BITS {}]", "[FORMAT {}]", "[FILE {}]", "[SECTION {}]", "{}:",
 	"JMP DWORD {}:0", "JMP DWORD 8:{}", "MOV AX,[{}]", "MOV BYTE [{}],1", "MOV AX,[BX+{}]", "NOT {}", "RET {}", "HLT {}", "{}", "{} AX", "MOV AX,1,{}"}
 
 var c13Zoo = []string{"$x", "x$y", "$", "$$", "_", "__", "a.b", ".x", "x.", "..", "{{.x}}", "{{x", "}}", "x{{.y}}", "{{.pre}}", "{{", "{{.}}", "{{template}}", "0x", "0xg", "1a", "a-", "EAXX", "AXE", "BYTE", "WORD", "DWORD",
 	"SHORT", "FAR", "NEAR", "PTR", "DWORD PTR", "ST0", "MM0", "XMM0", "CR8", "CR1", "DR0", "TR6", "ES:", ":ES", "ES:BX", "ES:[BX]", "1:2:3", "[", "]", "[]", "[[BX]]", "[BX", "BX]", "[BX+]", "[+BX]",
 	"[BX++SI]", "[BX*2]", "[EAX*3]", "[EAX*EBX]", "[ESP*2]", "[1+2", "[BX+SI+DI]", "[AX+BX+CX+DX]", "(1", "1)", "()", "(())", "\"\"", "\"a", "'a'", "'ab", "''", "-", "--1", "---1", "+1", "1+", "*", "1//2", "1 2", "1,,2", ",", ",1",
-	"99999999999999999999", "0xffffffffffffffffff", "-99999999999999999999", "0x7fffffffffffffff", "-9223372036854775808", "1/0", "1%0", "(1-1)*(2/0)", "pre", "pre+1", "pre-pre", "pre*2", "$+1", "$-$", "EQU", "GLOBAL", "DB", "MOV", "\t", " ", ";", "#", "\\", "@", "~", "!", "?", "`", "\x00", "\x7f", "\xff"}
+	"0x100000000", "0x200000000", "0x80000000", "0xffffffff", "4294967296", "-4294967296", "0x10000", "65536", "-1", "0", "99999999999999999999", "0xffffffffffffffffff", "-99999999999999999999", "0x7fffffffffffffff", "-9223372036854775808", "1/0", "1%0", "(1-1)*(2/0)", "A", "B", "A+1", "(A)", "pre", "pre+1", "pre-pre", "pre*2", "$+1", "$-$", "EQU", "GLOBAL", "DB", "MOV", "\t", " ", ";", "#", "\\", "@", "~", "!", "?", "`", "\x00", "\x7f", "\xff"}
 
 type scaleFamily struct {
 	name string
@@ -258,6 +258,10 @@ var c13Families = []scaleFamily{
 	{"string", func(n int) string { return "\tDB \"" + strings.Repeat("a", n) + "\"\n" }},
 	{"comment", func(n int) string { return "\tNOP ; " + strings.Repeat("c", n) + "\n" }},
 	{"identifier", func(n int) string { return strings.Repeat("i", n) + ":\n\tJMP " + strings.Repeat("i", n) + "\n" }},
+	{"nested_parens_label_imm", func(n int) string { return "fin:\n\tMOV AX," + strings.Repeat("(", n) + "fin" + strings.Repeat(")", n) + "\n" }},
+	{"nested_parens_label_jmp", func(n int) string { return "fin:\n\tJMP " + strings.Repeat("(", n) + "fin" + strings.Repeat(")", n) + "\n" }},
+	{"nested_parens_mem", func(n int) string { return "\tMOV AX,[BX+" + strings.Repeat("(", n) + "1" + strings.Repeat(")", n) + "]\n" }},
+	{"equ_uses", func(n int) string { return "K EQU 7\n" + strings.Repeat("\tDB K*2,K\n", n) }},
 	{"mem_sum", func(n int) string { return "\tMOV AX,[BX+1" + strings.Repeat("+1", n) + "]\n" }},
 }
 
